@@ -168,6 +168,23 @@ def property_checks(inp):
         if mask.shape[0] == mask.shape[1] and mask.shape[0] % S == 0 and len(f_lo):
             ff = wfslib.computeFillFactor(mask, c_lo, mask.shape[0] // S)
             A(("fill factors agree with computeFillFactor", float(numpy.abs(ff - f_lo).max()), 0.0))
+        # a mask as pupil.circle hands it out (whatever dtype that is), thresholds a hair above / below every attained fill
+        # factor: the selection is decided by the exact cell means (rationals k / area), in any storage precision
+        live = pupil.circle(inp.get("live_r", 6.0), inp.get("live_n", 12))
+        live64 = numpy.asarray(live, dtype=float)
+        Sl = inp.get("live_S", 4)
+        xl = live64.shape[0] / float(Sl)
+        cells = [live64[int(numpy.round(x * xl)):int(numpy.round((x + 1) * xl)), int(numpy.round(y * xl)):int(numpy.round((y + 1) * xl))] for x in range(Sl) for y in range(Sl)]
+        fills = sorted({(int(c_.sum()), int(c_.size)) for c_ in cells if c_.size and 0 < c_.sum()})
+        bad_thr = 0
+        for k_, a_ in fills:
+            for eps_ in (1e-8, -1e-8, 3e-10):
+                thr_ = (k_ / a_) * (1 + eps_)
+                got_n = len(numpy.reshape(wfslib.findActiveSubaps(Sl, live, thr_), (-1, 2)))
+                # exact rational comparison of each cell mean k_c / a_c with k / a (the means differ by >= 1/(a a_c) >> 1e-8)
+                want_n = sum(1 for c_ in cells if c_.size and (int(c_.sum()) * a_ > k_ * int(c_.size) or (int(c_.sum()) * a_ == k_ * int(c_.size) and eps_ <= 0)))
+                bad_thr += (got_n != want_n)
+        A(("selection from a pupil.circle mask at thresholds within 1e-8 of an attained fill factor follows the exact cell means", float(bad_thr), 0.0))
         m2 = numpy.array(inp["m2"], dtype=float); cnt = int(m2.sum())
         if cnt:
             data = numpy.arange(3 * 2 * cnt, dtype=float).reshape(3, 2, cnt) + 1
@@ -199,7 +216,8 @@ def gen_input(rng):
         px, py = rng.randint(0, n - 1) + 0.5 - (n / 2.0 if mid else 0.0), rng.randint(0, n - 1) + 0.5 - (n / 2.0 if mid else 0.0)
         dist = math.hypot(px - c[0], py - c[1])
         r = dist * (1 + rng.choice([-1, 1]) * 2.0 ** -rng.randint(14, 40))
-    return {"n": n, "r": r, "c": c, "mid": mid, "dr": rng.choice([0.0, 0.25, rng.uniform(0, 3)]), "shift": [rng.randint(-3, 3), rng.randint(-3, 3)],
+    lS = rng.choice([3, 4, 5, 6]); ln = lS * rng.choice([3, 5, 6, 7])
+    return {"live_S": lS, "live_n": ln, "live_r": ln / 2.0 * rng.uniform(0.7, 1.0), "n": n, "r": r, "c": c, "mid": mid, "dr": rng.choice([0.0, 0.25, rng.uniform(0, 3)]), "shift": [rng.randint(-3, 3), rng.randint(-3, 3)],
             "R": rng.uniform(1, 60), "mask": mask.tolist(), "S": rng.randint(1, 8), "thr": [rng.uniform(0, 1), rng.uniform(0, 1)],
             "m2": (npr.random((k, k)) < 0.6).astype(float).tolist()}
 
